@@ -42,7 +42,7 @@ def evaluate(ctx, progs):
     cov = {"programs": len(lines)}
     if not lines:
         return cov
-    p = subprocess.run(["bash", "-c", f"ulimit -s unlimited; exec {vlib.MODEL} c01pipe"], input="\n".join(lines) + "\n",
+    p = vlib.srun(["bash", "-c", f"ulimit -s unlimited; exec {vlib.MODEL} c01pipe"], input="\n".join(lines) + "\n",
                        stdout=subprocess.PIPE, stderr=subprocess.PIPE, text=True, timeout=3000)
     if p.returncode != 0:
         ctx.broken_ties.append(("model driver c01pipe", p.stderr[-1000:]))
